@@ -56,6 +56,12 @@ pub const EXTRA: &[&str] = &[
     "from t | group {a} (aggregate {n = count this}) | join (from u | group {a} (aggregate {m = max d})) (==a)",
     "from t | derive x = a + 1 | group x (aggregate {n = count this}) | filter n > 1 | sort {-n}",
     "from t | select {a, b} | take 2 | append (from u | select {a, d} | take 2) | sort a",
+    // "first row per group" after a pipeline split (DISTINCT ON in postgres / duckdb / clickhouse)
+    "from e=t | take 100 | join s=u (==a) | group e.a (sort {-s.d} | take 1)",
+    "from t | derive k = a + 1 | sort b | take 5 | group k (sort {-b} | take 1)",
+    "from t | select {k = a, b} | sort b | take 5 | group k (sort b | take 1)",
+    "from t | group a (aggregate {m = max b}) | join u (==a) | group m (sort u.d | take 1)",
+    "from t | join u (==a) | group {t.a, u.d} (sort t.b | take 1) | sort d | take 3 | group d (sort a | take 1)",
     // row ranges beyond 32 bits
     "from t | take 4294967296",
     "from t | sort a | take 5000000000..6000000000",
